@@ -324,3 +324,98 @@ def r_shift(F, R):
                 R.undecided_site("R-SHIFT", b.label(), "shift of %s at %s: bound [%d, %d] not tight" % (ty, where, lo, hi))
     R.floor("R-SHIFT", "overflow-checked shifts in the Huffman module", n, 10)
     R.extra["shift_sites_decided"] = decided
+
+
+# ---------------------------------------------------------------------------------------------
+# R-DESCENT: the decoder consults the table it has descended into
+
+
+def _places_of_stmt(st):
+    out = []
+    if st["k"] != "assign":
+        return out
+    rv = st["rv"]
+    if rv["k"] in ("ref", "rawptr", "discr"):
+        out.append(rv["place"])
+    for key in ("op", "a", "b"):
+        v = rv.get(key)
+        if isinstance(v, dict) and v.get("k") in ("copy", "move"):
+            out.append(v["place"])
+    for v in rv.get("ops", []) if rv["k"] == "aggregate" else []:
+        if v.get("k") in ("copy", "move"):
+            out.append(v["place"])
+    return out
+
+
+def r_descent(F, R):
+    """Decoder::next (helpers inlined): a code word longer than one table level is decoded by
+    descending (`map = further`).  Every table lookup that can run after a descent must index the
+    variable that was descended (its provenance includes the nested table), never the root table
+    `self.decode` alone: the remaining bits of a long code word looked up in the root table name a
+    different symbol."""
+    bodies = [b for b in F.bodies.values() if b.name == "next" and b.trait == "Iterator" and
+              (b.self_adt or "").endswith("decoder::Decoder") and not b.in_tests()]
+    R.floor("R-DESCENT", "Decoder::next", len(bodies), 1)
+    for b in bodies:
+        R.saw(b)
+        ctx = Ctx(b)
+        adt = F.adts.get(b.self_adt)
+        root_fields = set()
+        if adt:
+            for f in adt["variants"][0]["fields"]:
+                if "Decode<" in f["ty"]["s"]:
+                    root_fields.add("f:" + f["name"])
+        if not root_fields:
+            R.undecided_site("R-DESCENT", b.label(), "no table field found in the decoder type")
+            continue
+
+        def is_root(o):
+            (r, p) = o
+            return r == ("arg", 1) and p[:1] and p[0] in root_fields and all(x == "[]" for x in p[1:])
+
+        lookups = []  # (bb, line, base origins)
+        for bi in sorted(b.live_blocks()):
+            blk = b.blocks[bi]
+            for st in blk["stmts"]:
+                for pl in _places_of_stmt(st):
+                    if any(e["k"] == "index" for e in pl["p"]):
+                        orgs = ctx.org.place(pl)
+                        if any(is_root(o) for o in orgs):
+                            lookups.append((bi, st.get("line"), orgs))
+            t = blk["term"]
+            if t["k"] == "call" and callee_tag(t.get("callee")) in (("Index", "index"), ("slice", "get")):
+                orgs = ctx.org.operand(t["args"][0]) if t["args"] and t["args"][0]["k"] != "const" else set()
+                if orgs and any(is_root((o[0], o[1] + ("[]",))) or is_root(o) for o in orgs):
+                    lookups.append((bi, t.get("line"), {(o[0], o[1] + ("[]",)) for o in orgs}))
+        # descents: a table-typed local assigned from something that is not the root table
+        table_locals = {l for l in range(len(b.locals)) if "Decode<" in b.locals[l]["ty"]["s"] and
+                        b.locals[l]["ty"].get("ref") and "; " in b.locals[l]["ty"]["s"] and
+                        "Box" not in b.locals[l]["ty"]["s"]}
+        mixed = {l for l in table_locals if any(is_root(o) for o in ctx.org.local(l)) and
+                 any(not is_root(o) for o in ctx.org.local(l))}
+        descents = []
+        for bi in sorted(b.live_blocks()):
+            for si, st in enumerate(b.blocks[bi]["stmts"]):
+                if st["k"] == "assign" and not st["place"]["p"] and st["place"]["l"] in mixed:
+                    orgs = ctx.org.rvalue(st["rv"], bi, si)
+                    if orgs and not all(is_root(o) for o in orgs):
+                        descents.append(bi)
+        if not descents or not lookups:
+            R.undecided_site("R-DESCENT", b.label(), "no descent into a nested table (%d) or no table lookup (%d) "
+                             "recognised" % (len(descents), len(lookups)))
+            continue
+        after = set()
+        for d in descents:
+            after |= reach_strict(b, d)
+        n = 0
+        for (bi, line, orgs) in lookups:
+            if bi not in after:
+                continue
+            n += 1
+            ok = not all(is_root(o) for o in orgs)
+            R.check("R-DESCENT", b.label(), ok, construct="lookup after a descent uses the descended table",
+                    where="%s:%s" % (b.file, line),
+                    detail="table provenance %s" % sorted(str(o) for o in orgs)[:3] if ok else
+                    "this lookup can run after `map = further` (blocks %s) but always indexes the root table %s"
+                    % (sorted(descents), sorted(root_fields)))
+        R.floor("R-DESCENT", "table lookups that can follow a descent", n, 2)
